@@ -149,6 +149,21 @@ if __name__ == "__main__":
         cmd_confirm(a[1])
     elif a[0] == "run":
         cmd_run(a[1], a[2:])
+    elif a[0] == "table":     # markdown table for DESIGN.md section 8.7
+        import glob
+        print("| id | breaks | site | what is broken (needs) | own check | other checks |")
+        print("|---|---|---|---|---|---|")
+        for d in sorted(glob.glob(os.path.join(VERIF, "seeded", "S-*"))):
+            m = json.load(open(os.path.join(d, "meta.json")))
+            fs = m.get("files"); site = (fs[0] if isinstance(fs, list) and fs else str(fs)).replace("include/GeographicLib/", "")
+            wb = (m.get("what_breaks") or "").replace("\n", " ").replace("|", "/")
+            wb = wb[:160] + ("..." if len(wb) > 160 else "")
+            own = m["breaks_property"]; runs = m.get("check_runs", {})
+            def cell(p):
+                v = runs.get(p)
+                return "not run" if v is None else ("caught by " + ", ".join(v["by"]) if v["caught"] else "**missed**")
+            others = "; ".join("%s: %s" % (p, cell(p)) for p in runs if p != own) or "-"
+            print("| %s | %s | %s | %s | %s | %s |" % (m["id"], own, site, wb, cell(own), others))
     elif a[0] == "cleanup":
         sh("git -C /repo worktree remove --force %s/pristine" % SW)
         shutil.rmtree(SW, ignore_errors=True)
